@@ -69,6 +69,21 @@ func ensurePool(t testing.TB) []poolKey {
 			pub := sigref.RSAPublic{N: k.N, E: k.E}
 			pool = append(pool, poolKey{idx: i, bits: bits, std: k, pub: pub, priv: sigref.RSAPrivate{RSAPublic: pub, D: k.D, P: k.Primes[0], Q: k.Primes[1]}})
 		}
+		// moduli whose bit length is not a multiple of 8 (valid for every RSA key type: NewParameters
+		// only asks for >= 2048 bits): the signature length is ceil(bits/8), and for bits = 1 mod 8 the
+		// PSS encoded message is one byte shorter than the modulus (added after seeded change C03e)
+		for i, bits := range []int{2049, 2050, 2055} {
+			detrand.Seed(0xC03_0100 + uint64(i))
+			k, err := stdrsa.GenerateKey(rand.Reader, bits)
+			if err != nil {
+				t.Fatalf("harness: rsa.GenerateKey(%d): %v", bits, err)
+			}
+			if k.N.BitLen() != bits || k.E != 65537 || len(k.Primes) != 2 {
+				t.Fatalf("harness: unexpected generated key shape")
+			}
+			pub := sigref.RSAPublic{N: k.N, E: k.E}
+			pool = append(pool, poolKey{idx: len(pool), bits: bits, std: k, pub: pub, priv: sigref.RSAPrivate{RSAPublic: pub, D: k.D, P: k.Primes[0], Q: k.Primes[1]}})
+		}
 		// one key with primes of different byte lengths (129 / 127 bytes): legal, but never produced
 		// by key generators, so prime-size-dependent slips in key handling would otherwise go unseen
 		detrand.Seed(0xC03_00FF)
